@@ -221,12 +221,17 @@ class HistWorld:
                 pts.append(('before-tid', dict(before=t), i - 1))
             pts.append(('before-tid+1', dict(before=p64(u64(t) + 1)), i))
             tt = TimeStamp(t).timeTime()
-            for form in ('naive', 'aware'):
+            for form in ('naive', 'aware', 'aware+0530', 'aware-0800'):
                 def dt(x, form=form):
-                    d = datetime.datetime.utcfromtimestamp(x)
-                    if form == 'aware':
-                        d = d.replace(tzinfo=datetime.timezone.utc)
-                    return d
+                    if form == 'naive':
+                        return datetime.datetime.utcfromtimestamp(x)
+                    # the same instant written in another zone
+                    tz = {'aware': datetime.timezone.utc,
+                          'aware+0530': datetime.timezone(
+                              datetime.timedelta(hours=5, minutes=30)),
+                          'aware-0800': datetime.timezone(
+                              datetime.timedelta(hours=-8))}[form]
+                    return datetime.datetime.fromtimestamp(x, tz)
                 # between this transaction and the next
                 pts.append(('at-datetime-%s' % form,
                             dict(at=dt(tt + TICK / 2)),
@@ -515,7 +520,7 @@ def run(rep, tier, seed, workers):
         'undo the 1st / 2nd newest transaction, unlink + delete z} with '
         'transactions 0.4 s apart; at every node every historical point '
         '(at tid, before tid, before tid+1, at / before a datetime between '
-        'transactions, naive and aware) is opened and all objects read, '
+        'transactions, naive, aware UTC and aware in two other zones) is opened and all objects read, '
         'before and after two more live commits, plus one historical '
         'connection kept open across them; plus two databases of one '
         'multi-database with every interleaving pattern of their commits up '
